@@ -3,13 +3,20 @@ import BreezyVerif.Model.C26
 /-! line-protocol parsing shared by the C26 and C27 drivers (core Lean only) -/
 namespace BreezyVerif.C26
 
+/-- `<host>.<logname>.<T|F steal>` (running as root) or `<host>.<logname>.<T|F steal>.<uid>` -/
 def parseCfg (s : String) : Option Cfg :=
   match s.splitOn "." with
   | [h, u, st] => do
       let h ← h.toNat?
       let u ← u.toNat?
       let st ← parseBool st
-      pure ⟨h, u, st⟩
+      pure ⟨h, { name := u }, st⟩
+  | [h, u, st, uid] => do
+      let h ← h.toNat?
+      let u ← u.toNat?
+      let st ← parseBool st
+      let uid ← uid.toNat?
+      pure ⟨h, { name := u, uid := uid }, st⟩
   | _ => none
 
 def parseNonce (s : String) : Option Nonce :=
